@@ -10,6 +10,8 @@ for m in re.finditer(r"^(C\d\d)/(\d) demo_unchanged=(\d+) demo_changed=(\d+) bas
     if only and pid not in only:
         continue
     src = "/tmp/seed/out/%s" % pid
+    if not os.path.exists(os.path.join(src, "patch_%s.diff" % k)):
+        continue  # an earlier round: already imported, its scratch output is gone
     if d0 != "0" or d1 == "0" or "319 passed" not in base:
         print("NOT CONFIRMED", pid, k, d0, d1, base)
         continue
